@@ -343,6 +343,9 @@ func (n *node) RestoreRemotes(snapshot pb.Snapshot) error {
 	if snapshot.Membership.ConfigChangeId == 0 {
 		plog.Panicf("invalid ConfChangeId")
 	}
+	if verifEnabled {
+		verifYield("node.RestoreRemotes")
+	}
 	n.raftMu.Lock()
 	defer n.raftMu.Unlock()
 	for nid, addr := range snapshot.Membership.Addresses {
